@@ -27,11 +27,11 @@ def sh(cmd, cwd=None, env=None, timeout=3600):
     return p.returncode, p.stdout.decode("utf-8", "replace")
 
 
-def worktree(tag):
+def worktree(tag, base="HEAD"):
     d = "/tmp/seed_" + tag.replace("/", "_")
     sh(["git", "-C", "/repo", "worktree", "remove", "--force", d])
     shutil.rmtree(d, ignore_errors=True)
-    rc, out = sh(["git", "-C", "/repo", "worktree", "add", "--detach", d, "HEAD"])
+    rc, out = sh(["git", "-C", "/repo", "worktree", "add", "--detach", d, base])
     assert rc == 0, out
     return d
 
@@ -79,12 +79,14 @@ def run_demo(sdir, wt, target):
     return False, "no demonstration found"
 
 
-def confirm(tag):
+def confirm(tag, base="HEAD"):
+    """`base`: the /repo commit the change was written against (later repairs of /repo may touch the same lines or
+    make the demonstration's sample program invalid; the change is confirmed where it was written)"""
     sdir = os.path.join(VERIF, "seeded", tag)
-    wt = worktree(tag)
+    wt = worktree(tag, base)
     target = os.path.join(wt, "target")
     env = dict(ENV, CARGO_TARGET_DIR=target)
-    res = {"at_repo_commit": sh(["git", "-C", "/repo", "rev-parse", "--short", "HEAD"])[1].strip()}
+    res = {"at_repo_commit": sh(["git", "-C", wt, "rev-parse", "--short", "HEAD"])[1].strip()}
     try:
         ok0, log0 = run_demo(sdir, wt, target)
         res["demo_passes_without_patch"] = ok0
@@ -114,7 +116,10 @@ def detect(tag, tier="quick"):
     sdir = os.path.join(VERIF, "seeded", tag)
     wt = worktree(tag + "_d")
     try:
-        rc, out = sh(["git", "-C", wt, "apply", os.path.join(sdir, "patch.diff")])
+        # a change whose patch no longer applies to the current /repo (because a later repair touched the same lines)
+        # is carried forward by hand as patch.rebased.diff next to the original
+        rebased = os.path.join(sdir, "patch.rebased.diff")
+        rc, out = sh(["git", "-C", wt, "apply", rebased if os.path.exists(rebased) else os.path.join(sdir, "patch.diff")])
         assert rc == 0, out
         t0 = time.time()
         env = dict(ENV, VERIF_REPO=wt)
@@ -140,11 +145,16 @@ def detect(tag, tier="quick"):
 
 def main():
     mode, tags = sys.argv[1], sys.argv[2:]
+    base = "HEAD"
+    if "--base" in tags:
+        i = tags.index("--base")
+        base = tags[i + 1]
+        tags = tags[:i] + tags[i + 2:]
     for tag in tags:
         mp = os.path.join(VERIF, "seeded", tag, "meta.json")
         meta = json.load(open(mp)) if os.path.exists(mp) else {}
         if mode == "confirm":
-            meta["confirmed"] = confirm(tag)
+            meta["confirmed"] = confirm(tag, base)
             print(tag, "confirmed" if meta["confirmed"].get("ok") else "NOT CONFIRMED", json.dumps(meta["confirmed"])[:400], flush=True)
         else:
             r = detect(tag, "thorough" if mode == "detect-thorough" else "quick")
